@@ -78,6 +78,8 @@ def run(prog, chk):
     chk.rule(C06.hash_iteration, prog, chk)  # the same bytes from every front-end presupposes that no unordered iteration reaches the output
     from props import C01
     chk.rule(C01.utf8_boundary, prog, chk)  # transform_str converts the output to a String: every front-end agrees only if all input is validated up front
+    from props import xmlsink as _X
+    chk.rule(_X.single_serialiser, prog, chk)  # the same bytes on stdout as in the file / the library / the server: everything goes through write_to, written completely (write_all)
 
 
 TEXT_MODE_READS = ("std::io::BufRead::lines", "std::io::BufRead::read_line", "std::io::Read::read_to_string", "std::io::read_to_string", "std::string::String::from_utf8_lossy", "std::fs::read_to_string", "std::io::Stdin::lines", "std::io::Stdin::read_line")
